@@ -432,3 +432,202 @@ pub fn execute_c14(plan: &Plan) -> Outcome {
         extra_cases: Vec::new(),
     }
 }
+
+// ---------------------------------------------------------------- datagram half
+
+/// C14, datagram part: the same question for the addresses that travel with every datagram - SOCKS5-UDP at the local
+/// side, then the Shadowsocks datagram layouts (legacy, 2022) or the datagram frames inside a VMess / Trojan stream.
+/// seed -> (family, address): names of every length 0..=255 (SOCKS5-UDP cannot carry longer ones), IPv4 literals;
+/// contents as in the stream part (host-name characters, arbitrary bytes, multi-byte UTF-8).
+/// Oracle: the server resolves exactly that name, sends exactly the payload to exactly (resolved address, port), once -
+/// or nothing reaches any target and no other name is resolved; well-formed names of 1..=255 bytes must be delivered,
+/// the empty name refused.
+pub fn gen_c14_udp(seed: u64, _thorough: bool) -> Plan {
+    let mut g = Gen::new(seed, 141);
+    let families: [(Proto, &str, Transport); 4] = [(Proto::Shadowsocks, "aes-256-gcm", Transport::Tcp), (Proto::Shadowsocks, "2022-blake3-aes-128-gcm", Transport::Tcp), (Proto::Vmess, "aes-128-gcm", Transport::Tcp), (Proto::Trojan, "aes-128-gcm", Transport::Tls)];
+    let len = (seed % 257) as usize;
+    let (proto, cipher, transport) = families[(seed / 257) as usize % families.len()];
+    let config = crate::scen_udp::udp_config(&mut g, proto, cipher, transport, 0);
+    let kind = if len == 256 { "ipv4" } else { *g.pick(&["name", "name", "name-bytes", "name-utf8"]) };
+    let len = if len == 256 { 0 } else { len };
+    let mut name: Vec<u8> = (0..len).map(|_| *g.pick(b"abcdefghijklmnopqrstuvwxyz0123456789-")).collect();
+    match kind {
+        "name-bytes" => {
+            for b in name.iter_mut() {
+                if g.chance(30) {
+                    *b = g.below(256) as u8;
+                }
+            }
+        }
+        "name-utf8" if len >= 2 => {
+            let pool: [&str; 6] = ["\u{e9}", "\u{df}", "\u{4e2d}", "\u{6587}", "\u{1f600}", "\u{44f}"];
+            let mut out: Vec<u8> = Vec::with_capacity(len);
+            while out.len() < len {
+                let c = *g.pick(&pool);
+                if c.len() <= len - out.len() { out.extend_from_slice(c.as_bytes()) } else { out.push(b'x') }
+            }
+            name = out;
+        }
+        _ => {
+            let mut i = g.range(1, 20) as usize;
+            while i + 1 < len {
+                name[i] = b'.';
+                i += g.range(2, 40) as usize;
+            }
+        }
+    }
+    Plan {
+        property: "C14".into(),
+        scenario: "addresses-udp".into(),
+        seed,
+        net_seed: g.next(),
+        config,
+        knobs: KnobsPlan::simple(),
+        flows: vec![],
+        extra: serde_json::json!({ "kind": kind, "name": name, "port": g.range(1, 65535), "payloads": [g.range(1, 400), g.range(0, 40)] }),
+    }
+}
+
+pub fn execute_c14_udp(plan: &Plan) -> Outcome {
+    use octo_squirrel::verif::net::UdpSocket;
+    let kind = plan.extra["kind"].as_str().unwrap_or("name").to_owned();
+    let name: Vec<u8> = serde_json::from_value(plan.extra["name"].clone()).unwrap_or_default();
+    let port = plan.extra["port"].as_u64().unwrap_or(53) as u16;
+    let sizes: Vec<usize> = serde_json::from_value(plan.extra["payloads"].clone()).unwrap_or_else(|_| vec![20]);
+    let name_str = String::from_utf8(name.clone()).ok();
+    let target_ip = Ipv4Addr::new(127, 0, 14, 2);
+    let datas: Vec<Vec<u8>> = sizes.iter().enumerate().map(|(i, s)| payload(3, i as u8, 0, *s)).collect();
+    #[derive(Default, Clone)]
+    struct SeenU {
+        startup_err: Option<String>,
+        target_recv: Vec<Vec<u8>>,
+        other_recv: usize,
+        server_sends: Vec<(SocketAddr, usize)>,
+        dns: Vec<String>,
+    }
+    let out = rt::run_sim(plan.seed, plan.net_seed, plan.knobs.to_knobs(), || async {
+        let mut seen = SeenU::default();
+        if let Some(n) = name_str.as_ref().filter(|n| !n.is_empty()) {
+            world::with(|w| {
+                w.zone.insert(n.clone(), Some(IpAddr::V4(target_ip)));
+            });
+        }
+        let mains = match start_system(&plan.config, "127.0.0.1", SERVER_PORT).await {
+            Ok(m) => m,
+            Err(e) => {
+                seen.startup_err = Some(e);
+                return seen;
+            }
+        };
+        if !settle(|| udp_bound(CLIENT_PORT)).await {
+            seen.startup_err = Some("the client's local datagram socket is not bound".into());
+            return seen;
+        }
+        let want_addr = SocketAddr::new(IpAddr::V4(target_ip), port);
+        let recv = Arc::new(Mutex::new(Vec::<Vec<u8>>::new()));
+        let r2 = recv.clone();
+        let _target = spawn_scoped(async move {
+            let Ok(u) = UdpSocket::bind(want_addr).await else { return };
+            let mut buf = vec![0u8; 65536];
+            loop {
+                let Ok((n, _)) = u.recv_from(&mut buf).await else { return };
+                r2.lock().unwrap().push(buf[..n].to_vec());
+            }
+        });
+        // a second socket at the same host, next port: what a shifted port would hit
+        let other = Arc::new(Mutex::new(0usize));
+        let o2 = other.clone();
+        let _other = spawn_scoped(async move {
+            let Ok(u) = UdpSocket::bind(SocketAddr::new(IpAddr::V4(target_ip), port.wrapping_add(1).max(1))).await else { return };
+            let mut buf = vec![0u8; 65536];
+            while u.recv_from(&mut buf).await.is_ok() {
+                *o2.lock().unwrap() += 1;
+            }
+        });
+        tokio::task::yield_now().await;
+        let app = UdpSocket::bind(SocketAddr::new(IpAddr::V4(Ipv4Addr::LOCALHOST), 0)).await.unwrap();
+        for d in &datas {
+            let mut dg = vec![0u8, 0, 0];
+            if kind == "ipv4" {
+                dg.push(1);
+                dg.extend_from_slice(&target_ip.octets());
+            } else {
+                dg.push(3);
+                dg.push(name.len() as u8);
+                dg.extend_from_slice(&name);
+            }
+            dg.extend_from_slice(&port.to_be_bytes());
+            dg.extend_from_slice(d);
+            let _ = app.send_to(&dg, SocketAddr::new(IpAddr::V4(Ipv4Addr::LOCALHOST), CLIENT_PORT)).await;
+            tokio::time::sleep(Duration::from_millis(300)).await;
+        }
+        tokio::time::sleep(Duration::from_secs(2)).await;
+        seen.target_recv = recv.lock().unwrap().clone();
+        seen.other_recv = *other.lock().unwrap();
+        seen.server_sends = world::with(|w| w.udp_sends.iter().filter(|s| s.node == rt::NODE_SERVER && s.to.port() != CLIENT_PORT && !(s.to.ip().is_loopback() && s.to.ip() == IpAddr::V4(Ipv4Addr::LOCALHOST))).map(|s| (s.to, s.len)).collect());
+        seen.dns = world::with(|w| w.dns_queries.iter().filter(|q| q.node == rt::NODE_SERVER).map(|q| q.name.clone()).collect());
+        drop(mains);
+        seen
+    });
+    let seen = out.result.clone();
+    let cell = plan.config.family();
+    let len = name.len();
+    let class = if kind == "ipv4" { "literal" } else if len == 0 { "empty" } else { "1-255" };
+    let sig = |oracle: &str| format!("C14/udp-{oracle}/{cell}/{kind}/{class}");
+    let shown = String::from_utf8_lossy(&name[..name.len().min(24)]).to_string();
+    let mut v = Vec::new();
+    if let Some(e) = &seen.startup_err {
+        v.push(Violation::new("C14", format!("C14/udp-startup/{cell}"), e.clone()));
+    } else {
+        let want_addr = SocketAddr::new(IpAddr::V4(target_ip), port);
+        let dns_ok = if kind == "ipv4" { seen.dns.is_empty() } else { name_str.as_ref().is_some_and(|n| !seen.dns.is_empty() && seen.dns.iter().all(|q| q == n)) };
+        let exact = dns_ok && seen.target_recv == datas && seen.server_sends.iter().all(|(to, _)| *to == want_addr) && seen.other_recv == 0;
+        let nothing = seen.target_recv.is_empty() && seen.other_recv == 0 && seen.server_sends.is_empty() && (seen.dns.is_empty() || name_str.as_ref().is_some_and(|n| seen.dns.iter().all(|q| q == n)));
+        if !exact && !nothing {
+            let partial = dns_ok && seen.server_sends.iter().all(|(to, _)| *to == want_addr) && seen.other_recv == 0 && seen.target_recv.iter().all(|d| datas.contains(d));
+            // a datagram may be lost whole (C02's subject); what arrives must be exactly what was sent, where it was sent
+            if !partial {
+                v.push(Violation::new(
+                    "C14",
+                    sig("different-address-or-payload"),
+                    format!(
+                        "address of kind {kind}, name of {len} bytes ({shown:?}...) port {port}: the server resolved {:?} and sent {:?}; the target received {:?}-byte datagrams (sent: {:?}), the neighbouring port {}",
+                        seen.dns.iter().map(|n| format!("{}B:{}", n.len(), String::from_utf8_lossy(&n.as_bytes()[..n.len().min(16)]))).collect::<Vec<_>>(),
+                        seen.server_sends,
+                        seen.target_recv.iter().map(|d| d.len()).collect::<Vec<_>>(),
+                        sizes,
+                        seen.other_recv
+                    ),
+                ));
+            }
+        }
+        let well_formed = kind == "ipv4" || (name_str.is_some() && kind != "name-bytes" && len >= 1);
+        if well_formed && !exact && nothing {
+            v.push(Violation::new("C14", sig("representable-refused"), format!("address of kind {kind}, name of {len} bytes ({shown:?}...) port {port}: nothing was relayed")));
+        }
+        if kind != "ipv4" && len == 0 && !seen.target_recv.is_empty() {
+            v.push(Violation::new("C14", sig("empty-name-relayed"), "a datagram for the empty name was relayed".into()));
+        }
+    }
+    for p in &out.panics {
+        v.push(Violation::new("C14", format!("C14/panic/{cell}/udp-{kind}/{class}/{}", p.frame), format!("name of {len} bytes: panic in node {}: {} at {}", p.node, p.message, p.location)));
+    }
+    let mut probes = BTreeMap::new();
+    probes.insert(format!("udp_kind_{kind}"), 1);
+    probes.insert("udp_datagrams_delivered".to_owned(), seen.target_recv.len() as u64);
+    Outcome {
+        violations: v,
+        ev_hash: out.world.ev_hash,
+        ev_count: out.world.ev_count,
+        poll_hash: out.poll_hash,
+        polls: out.polls,
+        sim_ns: out.sim_ns,
+        stats: crate::report::world_stats(&out.world),
+        nontrivial: true,
+        case_hash: plan.seed.wrapping_mul(0x9E3779B97F4A7C15) ^ 0x14d,
+        probes,
+        panics: out.panics,
+        extra_evaluations: 0,
+        extra_cases: Vec::new(),
+    }
+}
